@@ -783,6 +783,17 @@ func (l *lexer) popToken() token {
 }
 
 func (l *lexer) pushToken(t token) {
+	if (l.head+1)%len(l.tokens) == l.tail {
+		// full. one lexer step can emit any number of tokens before the parser takes
+		// the first, a string concatenated from many parts for example
+		bigger := make([]token, 2*len(l.tokens))
+		n := 0
+		for i := l.tail; i != l.head; i = (i + 1) % len(l.tokens) {
+			bigger[n] = l.tokens[i]
+			n++
+		}
+		l.tokens, l.tail, l.head = bigger, 0, n
+	}
 	l.tokens[l.head] = t
 	l.head = (l.head + 1) % len(l.tokens)
 }
